@@ -14,7 +14,7 @@ CLAIMS = {
     "C02": ("durability/ordering protocol + error discipline (MUSTPASS/ORDER/GUARDED/ORIGIN over MIR CFGs); re-evaluates the manifest reader/replay/rollover rules C13.1/5/6",
             "Decides the protocol shape that crash safety needs on every path: ack only after the covering fdatasync (the coalesced token is the maximum offset under every ordering; everything handed to the fsync queue is a write-queue token or 0), SST "
             "sync before use, manifest write<flush<sync<rollover, link<manifest<install, log retired last and only on the Ok edge of the ingest, no storage error "
-            "dropped or unwrapped, no truncating open of data files.  A batch is reduced to one entry per key before it is stamped, logged and inserted (what is durable can be replayed), and every explicit panic on the write path is an internal invariant listed with its reason.  Does not enumerate crash states.", "§4 C02"),
+            "dropped or unwrapped, no truncating open of data files.  A batch is reduced to one entry per key before it is stamped, logged and inserted (what is durable can be replayed), and every explicit panic on the write path is an internal invariant listed with its reason.  A manifest handle whose write failed appends nothing behind the torn edit.  Does not enumerate crash states.", "§4 C02"),
     "C09": ("checksum-gate dominance, sanity-gate chain, bounded-allocation slice, R-ERR + explicit-panic audit + implicit-bounds audit (array-bounds dataflow on byte buffers) over REACH(read entry points)",
             "Decides that every consumer of file bytes is dominated by the equal edge of its CRC comparison, that the "
             "final-block sanity gates dominate the first block load, that data-sized allocations are bounded, and that no "
@@ -25,19 +25,19 @@ CLAIMS = {
             "Decides: append acknowledges only after the covering fdatasync; frame CRC gate and header size bounds dominate "
             "the hand-out; the discriminants written equal those accepted and FIRST is completed only by SECOND; split "
             "records are written header/payload/pad/header/payload after the size checks; failures poison the builder; no "
-            "error is lost or unwrapped in the reader; fsync() hands the sync queue a value in the write queue's unit.  An error leaves no bytes of the failed batch in the reader's buffer.  Does not decide boundary arithmetic, the prefix property under "
+            "error is lost or unwrapped in the reader; fsync() hands the sync queue a value in the write queue's unit.  An error leaves no bytes of the failed batch in the reader's buffer.  The reader's frame-size bound is at least the largest batch the writer admits (constants compared by value).  Does not decide boundary arithmetic, the prefix property under "
             "truncation, or exactly-once under interleavings.", "§4 C12"),
     "C13": ("ORDER/GUARDED/ORIGIN over Manifest::{open,_apply,rollover} and ManifestIterator::next; who-may-call on manifest files; HELD for the lock table; implicit-bounds audit of mani",
             "Decides: one append then sync_data before apply returns; rollover links a backup, writes the roll-up to a "
             "temporary and renames it; the reader delivers an edit only at its separator and drops a trailing partial edit; "
             "lines are CRC-gated; the directory lock is taken before reading and owned by the handle; only _apply/rollover "
-            "write manifest files.  Writer and reader agree on the alphabet of a line (shortest line admitted; non-ASCII text, a trailing CR and the action characters as info keys refused at write time); a refused in-process lock attempt opens no descriptor.  Does not decide tolerance of every truncation/crash point or the string alphabet.", "§4 C13"),
+            "write manifest files.  Writer and reader agree on the alphabet of a line (shortest line admitted; non-ASCII text, a trailing CR and the action characters as info keys refused at write time); a refused in-process lock attempt opens no descriptor.  A handle whose write failed accepts no further edit or rollover; a rollover that died after linking its backup is resumed, not repeated (the fragments keep chaining).  Does not decide tolerance of every truncation/crash point or the string alphabet.", "§4 C13"),
     "C08": ("who-may-call enumeration of every remove/rename/hard_link site with ORIGIN path classification; GUARDED/ORDER on unref, verifier and orphan scan (incl. the numeric order of manifest fragments and who may run the scan); ESCAPE of the VersionRef; MUSTPASS re-read of the base version after a wait",
             "Decides the deletion capability: nothing under sst/, mani/ or a log is ever unlinked by the store, an sst/ file is "
             "moved to trash/ only under dec()==true and strong_count==1, versions are referenced before publication, the "
             "verifier unlinks only what a durable intent names and only after verify_one, the orphan scan skips roll-ups and "
             "only renames, folds fragments in numeric order and runs only while the tree is being opened; a new version is derived from the "
-            "version current at installation and installed only after the manifest edit removing its predecessor's files (C02.4 re-evaluated); scan cursors own the VersionRef pinning their files.  Does not decide that reference counts are "
+            "version current at installation and installed only after the manifest edit removing its predecessor's files (C02.4 re-evaluated); scan cursors own the VersionRef pinning their files.  Every function that replaces the current version references the new version's files first and unreferences the outgoing version afterwards; the last holder's unref depends on nothing but strong_count == 1.  Does not decide that reference counts are "
             "numerically right for every history.", "§4 C08"),
     "C04": ("equality-gate table (GUARDED fail-closed Setsum comparisons), ORDER of Edit::info I/O/D before apply, accumulator MUSTPASS, loop-body MUSTPASS for GC discard",
             "Decides presence and placement of every balance gate and accumulator: compaction commit only on input == output + "
@@ -53,19 +53,19 @@ CLAIMS = {
             "collector resets its per-key state on every key change; any/all consult every child without short-circuit and the version "
             "counter always retains a key's first untombstoned version; the multi-builder seals every builder it lets go, records every file it "
             "opens and forwards each entry unchanged to the current builder.  "
-            "Outputs are cut only between two different keys (or at a full table).  Does not decide multiset equality of contents or GC policy semantics.", "§4 C05"),
+            "Outputs are cut only between two different keys (or at a full table).  A policy combinator defines and forwards every method of the Determiner trait to every child.  Does not decide multiset equality of contents or GC policy semantics.", "§4 C05"),
     "C06": ("HELD lock-guard dataflow (must/may), ORDER, GUARDED, WRITES and ORIGIN over KeyValueStore::{write,load,range_scan,_memtable_thread}",
             "Decides the critical-section and completion-order skeleton linearizability needs: one critical section assigns queue "
             "position, sequence number, memtable and log; Ok only after append < insert < head-of-list wait < unlink < notify; "
             "readers capture (mem, imm, version, timestamp) in one critical section; rollover swaps and drains in one critical "
             "section, creates the new log before its first state write (a failed rollover leaves the store as it was) and clears imm after ingest; a failed write leaves the wait list and notifies under the store mutex; the readers' timestamp field is advanced only after the batch is inserted and "
-            "at the head of the list.  Does not decide linearizability over all interleavings.", "§4 C06"),
+            "at the head of the list.  Every memtable point-read entry the store uses is handed the snapshot timestamp.  Does not decide linearizability over all interleavings.", "§4 C06"),
     "C18": ("ORDER/MUSTPASS/loop-body MUSTPASS/HELD/WRITES over do_work, WaitList and the LRU; wait-kind classification (filtering vs. plain condvar waits) with HELD at predicate writers; lock-order graph of sync42",
             "Decides hand-off and accounting pairing: every do_work exit unlinks then notifies, returns its own waiter's Output, "
             "the leader publishes every taken waiter's output before leaving and clears doing_work; wait-list head/tail change "
             "only under its lock in link/_unlink; LRU size and key map change together and nodes are freed after unmapping, "
             "raw derefs only under the cache lock; a wait that re-waits on a private predicate is used only where every writer of "
-            "that predicate holds the mutex slept with, every other wait is re-entered in a loop.  an unlink that finds a parked linker always announces the free slot; a use (lookup hit, overwrite, insert) makes the LRU entry the most recently used.  Does not decide "
+            "that predicate holds the mutex slept with, every other wait is re-entered in a loop.  an unlink that finds a parked linker always announces the free slot; a use (lookup hit, overwrite, insert) makes the LRU entry the most recently used.  notify_head signals whenever a head exists, under no further condition.  Does not decide "
             "exactly-once/ordering under all interleavings.", "§4 C18"),
     "C20": ("whole-program Acquires/MayWait summaries (call graph + typed Drop glue) -> lock-order graph cycles; condvar wait/notify discipline via HELD (Mutex and RwLock guards); ORDER/MUSTPASS for announcements, claim release and the mandatory-compaction emit; re-evaluates the coalescing-queue and wait-list rules C18.1/2/5 that every write passes through",
             "Decides deadlock-freedom structure: no two locks are taken in both orders (one flag-gated pair checked and excepted), "
@@ -82,29 +82,29 @@ CLAIMS = {
             "of comparisons), a compaction is expanded only by files contained in its range, an ingest derives the installed "
             "version from a snapshot re-read after its stall wait, and the memtable answers for exactly the requested key at the "
             "requested timestamp with versions ordered newest first; recovery's level propagation re-queues every component "
-            "whose level it raises (worklist relaxation).  In a deeper level every file between lower_bound(key) and upper_bound(key) is consulted, and compaction outputs are cut only between two different keys; a compaction candidate is offered only behind a test that every overlapping file of the levels in between is one of its inputs; a new file enters at level 0; recovery must treat a group of mutually unordered files specially before handing it to one level (it does not: known finding F32).  Does not decide "
+            "whose level it raises (worklist relaxation).  In a deeper level every file between lower_bound(key) and upper_bound(key) is consulted, and compaction outputs are cut only between two different keys; a compaction candidate is offered only behind a test that every overlapping file of the levels in between is one of its inputs; a new file enters at level 0; recovery must treat a group of mutually unordered files specially before handing it to one level (it does not: known finding F32).  Only the oldest level-0 file (the minimum by timestamp) leaves level 0 by a trivial move, and level 0 is walked newest first (sort direction and reversals read from MIR).  Does not decide "
             "the arithmetic of the compaction input closure, the rest of recovery level assignment, bloom/block search arithmetic.", "§4 C01"),
     "C03": ("ORIGIN chains (pipeline composition), loop-body MUSTPASS (every file wrapped and merged), GUARDED (overlap skip) plus the overlap predicate's decision table over (bound kinds x key order) read from MIR, HELD (snapshot capture); re-evaluates C11.1/4/5/6, C06.3/5, C05.5",
             "Decides pipeline composition: every scan is Bounds(Pruning(Merging(components))) with the captured timestamp and "
             "the caller's bounds, no component (mem, imm, any L0 file, any overlapping deeper file) can be left out -- files are skipped only by the "
             "overlap test, never by an iterator adaptor or a sub-slice --, the snapshot "
-            "is captured atomically, exhaustion is tested through key(); the files of one level are key-ordered after recovery only if mutually unordered files are not flattened into it (C01.9, known finding F32).  Does not decide ordering/exactly-once/seek landing.", "§4 C03"),
+            "is captured atomically, exhaustion is tested through key(); the files of one level are key-ordered after recovery only if mutually unordered files are not flattened into it (C01.9, known finding F32).  The per-level concatenation re-seeks every file it enters (C11.7).  Does not decide ordering/exactly-once/seek landing.", "§4 C03"),
     "C11": ("SIBLINGS forwarding tables and mirror-image rules (bounds next/prev, concat seek/next/prev, pruning seek/next), GUARDED key-before-value tests, ORDER on the merging cursor's direction switch",
             "Decides sibling consistency of the combinators: value() presence tests are tombstone tests (key known Some), wrappers "
             "forward m to m and never cross key/value, a direction switch advances every child before flipping the comparator "
             "and rebuilding the heap and moves children by single steps only (no re-seek), every seek positions every child, pruning filters by timestamp <= snapshot, recognises "
             "tombstones and accepts an entry only after screening it against skip_key (seek and next alike); the bounds cursor "
             "re-checks both bounds after every step in both directions; the concatenating cursor leaves an exhausted child.  "
-            "The pruning cursor records every entry it returns (prev as next and seek); the concatenating cursor's binary search never classifies an empty child.  Does not decide the combinator equivalences for all inputs.", "§4 C11"),
+            "The pruning cursor records every entry it returns (prev as next and seek); the concatenating cursor's binary search never classifies an empty child.  A child that becomes current in the concatenating cursor is positioned by a seek of its own before it is stepped or read.  Does not decide the combinator equivalences for all inputs.", "§4 C11"),
     "C07": ("who-frees analysis over Drop impls (GUARDED uniqueness test or pointee ownership), ESCAPE of the VersionRef, ORIGIN pipeline chains, ADT field-type facts; re-evaluates C06.3/5 (snapshot capture and visibility watermark)",
             "Decides the ownership/escape structure a memory-safe snapshot needs: shared memory is freed only by the Arc's pointee or "
             "behind a uniqueness test, iterators hold a clone of the list's Arc, the returned scan cursor owns the VersionRef that "
-            "pins its files, every scan pipeline prunes at the captured timestamp, cursors have no borrowed fields.  A `strong_count == 2` last-handle test is made under the file manager's lock.  Does not "
+            "pins its files, every scan pipeline prunes at the captured timestamp, cursors have no borrowed fields.  A `strong_count == 2` last-handle test is made under the file manager's lock.  Every function that replaces the current version takes references for the new one first (C08.2), so a held snapshot keeps pinning its files across trivial moves.  Does not "
             "decide which schedules would free memory under a live cursor.", "§4 C07"),
     "C17": ("atomic-ordering operand table with identity-only slice for Relaxed loads, ORDER with cycles (initialise before publish), value slice of the level index (bottom-up linking), who-may-call for deref/free",
             "Decides publication order and confinement: Release stores / AcqRel CAS / Acquire loads on every pointer that can be "
             "dereferenced, the successor is stored into a new node before every linking CAS (on each retry, same observed value), "
-            "levels are linked bottom-up starting at level 0, raw derefs only in node_ptr::deref, frees only in the last owner's Drop.  the four searches share one skeleton (top level first, one level down at a time, right only onto a non-null node strictly before the key, answers only at level 0, pointer pairs recorded at every level) and a keyed search answers with the successor its deciding comparison examined, never a second read of the link.  Does not decide lost inserts or ordered "
+            "levels are linked bottom-up starting at level 0, raw derefs only in node_ptr::deref, frees only in the last owner's Drop.  the four searches share one skeleton (top level first, one level down at a time, right only onto a non-null node strictly before the key, answers only at level 0, pointer pairs recorded at every level) and a keyed search answers with the successor its deciding comparison examined, never a second read of the link.  The iterator reads its current node's key or value only where the node is not the head sentinel.  Does not decide lost inserts or ordered "
             "iteration under every interleaving.", "§4 C17"),
     "C14": ("constructor-discipline ORIGIN (with &mut-fill detection), operator table ORDER/MUSTPASS, const evaluation of SETSUM_PRIMES (primality), framing constants read from MIR, loop totality (iterator type, per-iteration store MUSTPASS, no early exit) of the column loops",
             "Decides the representation-invariant discipline the algebra needs: every Setsum state comes from zero, add_state or "
@@ -120,7 +120,7 @@ CLAIMS = {
             "explicit panic or dropped error is reachable from a decoder, and every index / slice expression on the decode path "
             "is in range by a dominating comparison with the length of the same buffer (7 excepted sites with reasons); every hand-written "
             "Packable impl sizes through pack_sz each concrete component it writes through pack (a Tag::pack_sz that sizes the tag itself is "
-            "tabulated over all valid field numbers against the varint length).  Leaf field packers always write their field (presence is decided only by Option / Vec / Box), every scalar field type announces the wire type of what it writes, and every field loop of a derived decoder can pass over an unknown field.  Does "
+            "tabulated over all valid field numbers against the varint length).  Leaf field packers always write their field (presence is decided only by Option / Vec / Box), every scalar field type announces the wire type of what it writes, and every field loop of a derived decoder can pass over an unknown field.  A varint decoder's growing shift sits in a loop bounded by a constant of at most ten steps.  Does "
             "not decide round-trip equality or integer-overflow panics.", "§4 C15, §9.1"),
     "C16": ("TABLE reading of to/from_discriminant (inverse bijection < 16), const evaluation of tuple_key2 tag ranges, exhaustive evaluation over u8 of the descending byte map read from MIR, exact piecewise-translation tabulation of the sign-offset mapping (order isomorphism, decode inverts encode), explicit-panic audit + implicit-bounds audit with an inductive offset <= len type invariant over REACH(decoders)",
             "Claims only: the decoders of both formats reach no explicit panic construct and index their buffers in range (parser "
@@ -147,7 +147,7 @@ CLAIMS = {
             "agree; plus two small structural clauses: all bit-vector implementations reject the same indices in access (>= len) "
             "and rank (> len), and a backward-search step returns an empty range whenever one of its input ranges is empty.  "
             "Index writers drive no loop by a zip() whose sides can differ in length.  Everything numerical in C19 (search positions, counts, rank/select/access, record mapping, extraction) is "
-            "NOT decided by static analysis and is not claimed.", "§4 C19"),
+            "In suffix-array construction an LMS substring is named apart from its predecessor only by the first-element test or a comparison between the two.  NOT decided by static analysis and is not claimed.", "§4 C19"),
 }
 
 NA_DEFAULT = "check not built yet (DESIGN.md §8 build order); will be claimed once its rule set is armed"
